@@ -217,6 +217,17 @@ func opens(path string) (ok bool, err error) {
 	_, e4 := ex.PageCount()
 	ex.Close()
 	_ = txt
+	// the decision is made again on every call: the same Extractor asked a second
+	// time, and extractors derived from one that has already been asked
+	again := tabula.Open(path)
+	again.Text()
+	_, _, e5 := again.Text()
+	_, _, e6 := again.ExcludeHeaders().ToMarkdown()
+	_, e7 := again.JoinParagraphs().PageCount()
+	again.Close()
+	if e1 != nil && e2 != nil && e3 != nil && e4 != nil && (e5 == nil || e6 == nil || e7 == nil) {
+		return true, fmt.Errorf("refused on the first call, accepted on a later call of the same or a derived Extractor (Text again: %v, derived ToMarkdown: %v, derived PageCount: %v)", e5, e6, e7)
+	}
 	if e1 == nil || e2 == nil || e3 == nil || e4 == nil {
 		if e1 != nil {
 			return true, e1
